@@ -452,7 +452,7 @@ fn build_labelled<'a>(d: &'a PrettifiableDataset) -> BTreeSet<&'a SimpleTerm<'a>
                             named_graphs: [q.g()].into_iter().collect(),
                             out_degree: usize::from(i == 0),
                             predecessor: if i == 2 { Some(q.s()) } else { None },
-                            visited: false,
+                            visited: None,
                         });
                 }
                 TermKind::Triple => {
@@ -472,7 +472,7 @@ fn build_labelled<'a>(d: &'a PrettifiableDataset) -> BTreeSet<&'a SimpleTerm<'a>
                                 named_graphs: Default::default(),
                                 out_degree: 0,
                                 predecessor: None,
-                                visited: false,
+                                visited: None,
                             });
                     }
                 }
@@ -482,23 +482,31 @@ fn build_labelled<'a>(d: &'a PrettifiableDataset) -> BTreeSet<&'a SimpleTerm<'a>
     }
     // detect blank node cycles
     let keys: Vec<_> = profiles.keys().copied().collect();
-    for key in keys {
+    for (walk, key) in keys.into_iter().enumerate() {
         let profile = profiles.get_mut(&key).unwrap();
-        if profile.bad || profile.visited {
+        if profile.bad || profile.visited.is_some() {
             continue;
         }
-        profile.visited = true;
+        profile.visited = Some(walk);
         let mut current = profile.predecessor;
         while let Some(t) = current {
             if let Some(p) = profiles.get_mut(&t) {
-                if t == key {
-                    p.bad = true;
+                if p.bad {
                     break;
-                } else if p.bad || p.visited {
-                    break;
-                } else {
-                    p.visited = true;
-                    current = p.predecessor;
+                }
+                match p.visited {
+                    // we are back on the path of the current walk: t is part of a cycle
+                    // (not necessarily containing the node we started from)
+                    Some(w) if w == walk => {
+                        p.bad = true;
+                        break;
+                    }
+                    // already explored by a previous walk
+                    Some(_) => break,
+                    None => {
+                        p.visited = Some(walk);
+                        current = p.predecessor;
+                    }
                 }
             } else {
                 break;
@@ -516,7 +524,8 @@ struct BnodeProfile<'a> {
     named_graphs: BTreeSet<GraphName<&'a SimpleTerm<'a>>>,
     out_degree: usize,
     predecessor: Option<&'a SimpleTerm<'a>>,
-    visited: bool,
+    /// the number of the walk (in cycle detection) that visited this node, if any
+    visited: Option<usize>,
 }
 
 impl<'a> BnodeProfile<'a> {
